@@ -22,6 +22,8 @@ def gen_range(src, out):
     m = re.search(r"return\s*\(\s*lmtime\s*(>=?)\s*TIME64_CAST\(ifmtime\)", d)
     if not m: problems.append("http_date_if_modified_since: comparison 'lmtime > ifmtime' not found")
     txt += "Definition ims_compare_is_strict_gt : bool := %s.\n" % ("true" if m and m.group(1) == ">" else "false")
+    m2 = re.search(r"http_date_str_to_tm\(\s*ifmod\s*,\s*ifmodlen\s*,\s*&ifmodtm\s*\)\s*!=\s*ifmod\s*\+\s*ifmodlen", hd if 'hd' in dir() else strip_comments(rd(src, "http_date.c")))
+    txt += "Definition ims_requires_full_match : bool := %s.\n" % ("true" if m2 else "false")
     write_if_changed(os.path.join(out, "GenRange.v"), txt)
 
 
